@@ -37,7 +37,9 @@ CLAIM = dict(
          'correspondence and the search hand the same values over in varying ARGUMENT FORMS: pivot / mode number as '
          'Python int, np.int64, np.int32, np.intp, 0-d array or None (valid, out of range, negative); cores C-ordered, '
          'F-ordered, non-contiguous views, int64 (and, search only, float32) — also mixed per core; the same array object '
-         'several times in the list ([A] + [G]*(d-2) + [B]); list or tuple; inplace True / False; the frame clause compares '
+         'several times in the list ([A] + [G]*(d-2) + [B]); list or tuple; the boolean options inplace / use_stab spelled '
+         'True / 1 / np.True_ / np.bool_(True) resp. False / 0 / np.False_ / np.bool_(False) / None / omitted (Python '
+         'truthiness decides: argument returned and replaced resp. untouched and a new list returned); the frame clause compares '
          'every other core bitwise, aliased ones included. HISTORIES (search): orthogonalize applied to its own result at '
          'other pivots and twice at the same pivot (all clauses again, ranks and Gram matrices stable), repeated calls on '
          'the same argument objects (bit-identical afterwards), the sweep made by hand with in-place resp. copying single '
@@ -248,8 +250,27 @@ def wrap_k(k, kform):
     return dict(int=int, int64=np.int64, int32=np.int32, intp=np.intp, arr0=np.array)[kform or 'int'](k)
 
 
+FLAGFORMS = ['bool', 'int', 'np', 'npb', 'none', 'default']
+
+
+def wrap_flag(flag, ff):
+    """a boolean option in its different spellings; Python truthiness decides in the unchanged code:
+    True / 1 / np.True_ / np.bool_(True);  False / 0 / np.False_ / np.bool_(False) / None / (argument omitted)"""
+    ff = ff or 'bool'
+    if flag:
+        return {'int': 1, 'np': np.True_, 'npb': np.bool_(True)}.get(ff, True)
+    return {'int': 0, 'np': np.False_, 'npb': np.bool_(False), 'none': None}.get(ff, False)
+
+
+def flag_kw(name, flag, ff):
+    """keyword dict for a boolean option: omitted for the form 'default' of a false flag"""
+    if not flag and ff == 'default':
+        return {}
+    return {name: wrap_flag(flag, ff)}
+
+
 def norm_form(form):
-    f = dict(layouts='C', alias=False, container='list', kform='int')
+    f = dict(layouts='C', alias=False, container='list', kform='int', flagform='bool')
     if isinstance(form, str):
         f['layouts'] = form
     elif isinstance(form, dict):
@@ -305,7 +326,7 @@ def rand_form(rng, fam, scales, allow_f32=True, allow_tuple=True):
         L = rng.choice([x for x in lays if x != 'f32'] if fam == 'alias' else lays)
     else:
         L = [rng.choice(lays) for _ in range(len(scales))]
-    return dict(layouts=L, alias=(fam == 'alias'), kform=rng.choice(KFORMS),
+    return dict(layouts=L, alias=(fam == 'alias'), kform=rng.choice(KFORMS), flagform=rng.choice(FLAGFORMS),
                 container='tuple' if allow_tuple and rng.random() < 0.25 else 'list')
 
 
@@ -520,13 +541,12 @@ def corr_orthogonalize(R, tn, rng, th):
                     continue
                 form = rand_form(rng, fam, scales, allow_f32=False)
                 Yc, kw = apply_form(Y, form), wrap_k(k, form['kform'])
+                fkw = flag_kw('use_stab', stab, form['flagform'])
+                ret = []
                 with Rec(tn) as rec:
-                    if stab:
-                        imp = impl_result(lambda: tn.orthogonalize(Yc, kw, use_stab=True))
-                    elif rng.random() < 0.5:
-                        imp = impl_result(lambda: tn.orthogonalize(Yc, kw))
-                    else:
-                        imp = impl_result(lambda: tn.orthogonalize(Yc, kw, False))
+                    imp = impl_result(lambda: ret.append(tn.orthogonalize(Yc, kw, **fkw)) or ret[0])
+                if imp[0] == 'ok' and isinstance(ret[0], tuple) != bool(stab):   # pair iff use_stab is truthy
+                    imp = ('err', 7, f'use_stab={fkw.get("use_stab", "<omitted>")!r}: wrong kind of result {type(ret[0]).__name__}')
                 near, l2bad = rec.log2_status()
                 if near:
                     dist['near_pow2_skipped'] += 1
@@ -599,9 +619,17 @@ def corr_steps(R, tn, rng, th):
                 form = rand_form(rng, fam, scales, allow_f32=False, allow_tuple=not inplace)
                 Yc, iw = apply_form(Y, form), wrap_k(i, form['kform'])
                 f = tn.orthogonalize_left if side == 'left' else tn.orthogonalize_right
+                fkw = flag_kw('inplace', inplace, form['flagform'])
+                ysnap = [np.array(G, copy=True) for G in Yc]
+                ret = []
                 with Rec(tn) as rec:
-                    imp = impl_result(lambda: f(Yc, iw, inplace=inplace) if inplace else f(Yc, iw))
+                    imp = impl_result(lambda: ret.append(f(Yc, iw, **fkw)) or ret[0])
                 cv = rec.contract_violations()
+                if imp[0] == 'ok':      # what happens to the argument follows the truthiness of the flag
+                    if inplace and ret[0] is not Yc:
+                        cv.append(f'inplace={fkw.get("inplace")!r}: the argument was not returned')
+                    if not inplace and (ret[0] is Yc or any(not same_bytes(a, b) for a, b in zip(Yc, ysnap))):
+                        cv.append(f'inplace={fkw.get("inplace", "<omitted>")!r}: the argument was returned / modified')
                 if imp[0] == 'ok':
                     j2 = i + 1 if side == 'left' else i - 1
                     Rm = rec.qr[0][2] if side == 'left' and rec.qr else (rec.rq[0][1] if side == 'right' and rec.rq else None)
@@ -631,7 +659,7 @@ def corr_steps(R, tn, rng, th):
         R.add_distinct(('step', m['input']))
         why = compare(v, m['imp'])
         if why is None and m['contract']:
-            why = 'oracle contract: ' + '; '.join(m['contract'][:2])
+            why = 'oracle contract / argument treatment: ' + '; '.join(m['contract'][:2])
         if why:
             bad.append(dict(stream='single_step_replay', why=why, input=m['input']))
     R.corr.append(dict(name='single_step_replay', cases=len(meta), mismatches=len(bad),
@@ -735,7 +763,7 @@ def check_orth(tn, Y0, scales, k, stab, form=None):
     d = len(Y)
     kk = d - 1 if k is None else k
     kw = wrap_k(k, form['kform'])
-    r = tn.orthogonalize(Y, kw, use_stab=True) if stab else tn.orthogonalize(Y, kw)
+    r = tn.orthogonalize(Y, kw, **flag_kw('use_stab', stab, form['flagform']))
     if len(Y) != len(snap) or any(not same_bytes(a, b) for a, b in zip(Y, snap)):
         return ('orthogonalize modified its argument', None, None)
     return verify_orth(snap, scales, r, kk, stab, lo)
@@ -845,7 +873,7 @@ def check_history(tn, Y0, scales, ks, stab, form=None):
     d = len(Y)
 
     def call(X, k):
-        return tn.orthogonalize(X, wrap_k(k, form['kform']), use_stab=True) if stab else tn.orthogonalize(X, wrap_k(k, form['kform']))
+        return tn.orthogonalize(X, wrap_k(k, form['kform']), **flag_kw('use_stab', stab, form['flagform']))
     # (a)
     cur, cs = Y, list(scales)
     first = None
@@ -908,17 +936,21 @@ def check_step(tn, Y, side, i, inplace, form=None):
     snap = [G.copy() for G in Y]
     f = tn.orthogonalize_left if side == 'left' else tn.orthogonalize_right
     iw = wrap_k(i, form['kform'])
-    Z = f(Y, iw, inplace=True) if inplace else f(Y, iw)
+    fw = flag_kw('inplace', inplace, form['flagform'])
+    Z = f(Y, iw, **fw)
     j2 = i + 1 if side == 'left' else i - 1
+    fdesc = repr(fw.get('inplace', '<omitted>'))
     if inplace:
         if Z is not Y:
-            return ('in-place variant does not return its argument', None, None)
+            return (f'in-place variant (inplace={fdesc}) does not return its argument', None, None)
         for m in range(len(Y)):
             if m not in (i, j2) and not same_bytes(Y[m], snap[m]):
                 return (f'in-place variant changed core {m} (only {i} and {j2} may change)', m, None)
     else:
+        if Z is Y:
+            return (f'copying variant (inplace={fdesc}) returned its argument instead of a new tensor', None, None)
         if len(Y) != len(snap) or any(not same_bytes(a, b) for a, b in zip(Y, snap)):
-            return ('copying variant modified its argument', None, None)
+            return (f'copying variant (inplace={fdesc}) modified its argument', None, None)
     w = well_formed(Z, snap)
     if w:
         return (w, None, None)
@@ -1188,6 +1220,18 @@ def search(R, ctx, deep, hints):
                     cand.append(['left', Dn, scales, i, bool(i % 2), base])
                 for i in range(1, d):
                     cand.append(['right', Dn, scales, i, bool(i % 2), base])
+        # (h) every spelling of the boolean options (Python truthiness decides): inplace of both steps, use_stab
+        if t % 3 == 1 and d >= 2:
+            for ff in FLAGFORMS:
+                fm = dict(base, flagform=ff)
+                for flag in (False, True):
+                    if flag and ff in ('none', 'default'):
+                        continue
+                    cand.append(['orthogonalize', D, scales, rng.randrange(d), flag, fm] if (flag or pl) else
+                                ['orthogonalize', D, scales, rng.randrange(d), True, base])
+                    if pl:
+                        cand.append(['left', D, scales, rng.randrange(d - 1), flag, fm])
+                        cand.append(['right', D, scales, rng.randrange(1, d), flag, fm])
         # (d) rejection, every pivot type
         if t % 4 == 0:
             for kf in KFORMS:
